@@ -123,6 +123,8 @@ def corpus_defs(tier):
     d['boundfrag'] = dict(trace='TraceFrag', rand=[dict(gen='boundfrag', n=0, rel=None, facets=None)])
     # --- cli: the built muxide binary vs. the in-process library (C20) -----------------------------
     d['cli'] = dict(trace='TraceCli', rand=[dict(gen='cli', n=0, rel=None, facets=None)], cli_info=True)
+    # --- valtab: dry-run validators and FromStr/Display surfaces (specification growth beyond the list) ----
+    d['valtab'] = dict(trace='TraceVal', kind='valtab')
     return d
 
 
@@ -199,6 +201,22 @@ def run(ctx, name, cdir):
     d = defs[name]
     if d.get('kind') == 'fnt':
         return run_fnt(ctx, name, d, cdir)
+    if d.get('kind') == 'valtab':
+        strings = gen.generate('mutbytes', 0, ctx.seed, ctx.tier)
+        inp = os.path.join(cdir, 'strings.ndjson')
+        with open(inp, 'w') as f:
+            for b in strings:
+                f.write(json.dumps(b) + '\n')
+        outdir = os.path.join(cdir, 'val')
+        hr = core.run_harness(ctx, ['valtab', '--in', inp, '--out', outdir])
+        shard_files = sorted(glob.glob(os.path.join(outdir, 'shard_*.ndjson')))
+        sigs, consumed, errors = core.run_trace_shards(ctx, d['trace'], shard_files, os.path.join(cdir, 'tv'))
+        res = {'name': name, 'errors': errors, 'instances': hr.get('instances', 0), 'events': consumed, 'shards': 1, 'mc_runs': [],
+               'samples': [{'f': 'video_config', 'w': 319, 'h': 240, 'fps_milli': 30000}], 'nontrivial': {'*': hr.get('instances', 0)},
+               'sigs': [{'sig': s_['sig'], 'inst': s_['inst'], 'ev': s_['ev'], 'module': d['trace'], 'line': {'valtab': s_['inst']}} for s_ in sigs]}
+        shutil.rmtree(outdir, ignore_errors=True)
+        shutil.rmtree(os.path.join(cdir, 'tv'), ignore_errors=True)
+        return res
     if d.get('kind') == 'fnlist':
         strings = gen.generate(d['gen'], 0, ctx.seed, ctx.tier)
         inp = os.path.join(cdir, 'strings.ndjson')
